@@ -13,7 +13,7 @@ import json, os, shutil, subprocess, sys, tempfile, concurrent.futures, threadin
 
 VERIF = os.path.dirname(os.path.dirname(os.path.abspath(__file__)))
 REPO = "/repo"
-ENV = dict(os.environ, GOFLAGS="-mod=mod", GOPROXY="off", GOSUMDB="off", GOTOOLCHAIN="local", GOWORK="off")
+ENV = dict(os.environ, GOFLAGS="-mod=mod -trimpath", GOPROXY="off", GOSUMDB="off", GOTOOLCHAIN="local", GOWORK="off")
 FILES = ["vm/vm.go", "vm/vmStmt.go", "vm/vmExpr.go", "vm/vmExprFunction.go", "vm/vmLetExpr.go", "vm/vmOperator.go", "vm/vmToX.go",
          "vm/vmConvertToX.go", "vm/vmConvertToXGo112.go", "env/env.go", "env/envValues.go", "env/envTypes.go", "core/core.go",
          "core/toX.go", "parser/lexer.go", "ast/astutil/walk.go", "anko.go"]
